@@ -4,6 +4,9 @@ import json, os, subprocess
 V = os.path.dirname(os.path.dirname(os.path.abspath(__file__)))
 TB = "Trusted: Coq 8.16.1 kernel + vm_compute (no native_compute); no axioms declared (Print Assumptions reports only the kernel's primitive float/int63 types where the F64 instance is mentioned); "
 E = {
+ "C10": ("Theorems about the executable model of MatrixPreprocess/TensorPreprocess: columns whose scale is inside the zero guard become exactly 0 in EVERY number system (binary64 included: no NaN/Inf); stored vectors are the column statistics; cell-wise fit formula, zero column sums, apply = affine map, apply(fit stats) reproduces the fit on complete data (no band hypothesis since both guards agree), MISSING cells do not enter mean/variance/rms, tensor = blockwise, option -1 copies; the model's literals are proved equal to the constants regenerated from the source (T-params). Model run on binary64 against the library, plus an independent statistics oracle.",
+         TB + "hand transcription of preprocessing.c / column statistics of matrix.c (validated per run), T-params (regex over the source), unit-sd / Pareto / range statistics checked by the oracle rather than proved.",
+         "Coq theorems over a list model generic in the number system + source-regenerated constants + binary64 correspondence"),
  "C11": ("Refinement theorems (Coq/MathComp, any real closed field, all shapes): the executable list kernels — matmul in both dispatch branches incl. the k+=4 unrolled loop and tails, mat-vec, vec-mat (accumulating), outer, transpose, trace, inner product, exchange sort — equal their bigop/matrix definitions; (AB)^T=B^T A^T and transpose involution on the kernels themselves. The same Gallina definitions run on binary64 inside coqc and are compared with the compiled library.",
          TB + "hand transcription of matrix.c/vector.c/tensor.c kernels (validated by the per-run correspondence), gcc -O1 -ffp-contract=off, rounding compared (2^-44 relative) not bounded; covariance/col-stats/tensor contractions are correspondence+oracle only.",
          "Coq/MathComp refinement proofs over a list-matrix model + binary64 model-vs-library correspondence by vm_compute"),
